@@ -1,12 +1,13 @@
 (* C16 — property theorems. Only statements closed by `exact <lemma>`, Print Assumptions beneath,
    the refutations of the code before commit 2959d55, and the non-vacuity examples. *)
+From Coq Require Import Permutation.
 From C16 Require Import Model CaseDefs Proofs.
 
 (* Per shard: the replicas are tried in order; plain errors are skipped; the first replica that does
    anything else decides: an answer, or a special refusal (too-many-uniq fails the shard at once). *)
 Theorem C16_shard_first_answer_decides : forall sh,
   match search_shard sh with
-  | SAns s l => exists pre post, sh = pre ++ (s, BOk l) :: post /\ Forall (fun r => snd r = BErr) pre
+  | SAns s l x => exists pre post, sh = pre ++ (s, BOk l x) :: post /\ Forall (fun r => snd r = BErr) pre
   | SWantsOld => exists pre s post, sh = pre ++ (s, BWantsOld) :: post /\ Forall (fun r => snd r = BErr) pre
   | STooManyFrac => exists pre s post, sh = pre ++ (s, BTooManyFrac) :: post /\ Forall (fun r => snd r = BErr) pre
   | SFail => Forall (fun r => snd r = BErr) sh
@@ -21,7 +22,7 @@ Print Assumptions C16_shard_first_answer_decides.
 Theorem C16_tier_complete_or_partial : forall prio shards,
   let rs := map search_shard shards in
   match search_stores prio shards with
-  | TOk p qs => qs = answers rs /\ existsb is_wo rs = false /\ existsb is_tmf rs = false
+  | TOk p qs xs => qs = answers rs /\ xs = extras rs /\ existsb is_wo rs = false /\ existsb is_tmf rs = false
                 /\ p = existsb is_fail rs /\ (p = true -> qs <> [])
   | TFail => existsb is_wo rs = false /\ existsb is_tmf rs = false
              /\ existsb is_fail rs = true /\ answers rs = []
@@ -33,31 +34,106 @@ Print Assumptions C16_tier_complete_or_partial.
 
 (* Whole search, for EVERY sorting function that returns a sorted permutation (sort.Sort is not
    stable): the outcome is the error of the deciding tier, or carries that tier's partial flag and
-   the returned IDs are exactly the page [off, off+size) of the duplicate-free union of the
-   answering shards' IDs in response order (rank specification, CaseDefs.page_ok — the same checker
-   the correspondence run applies to the real output), each with a source that really answered it. *)
+   - the returned IDs are exactly the page [off, off+size) of the duplicate-free union of the
+     answering shards' IDs in response order (rank specification CaseDefs.page_ok — the checker the
+     correspondence run applies to the real output), each with a source that really answered it;
+   - Total = sum of the answering shards' totals minus the number of dropped duplicates (uint64
+     arithmetic; untouched when the sum is 0);
+   - every histogram bucket = sum of what the answering shards report for it minus the dropped
+     duplicates falling into it (when an interval is given), as uint64;
+   - the number of store soft errors = the sum over the answering shards;
+   - one merged aggregation per aggregation query; its NotExists is the sum; a bin exists iff some
+     answering shard has it, and then Total/Sum/NotExists/Samples (and Min/Max, when no shard reports
+     a negative Total) are those of exactly the containers the answering shards hold for that bin.
+   Nothing depends on the order in which the answers arrived. *)
 Theorem C16_complete_or_partial : forall sort, sort_ok sort ->
-  forall p1 p2 hot hotread cold off size rev,
-  match verdict_of p1 p2 hot hotread cold, search sort p1 p2 hot hotread cold off size rev with
+  forall p1 p2 hot hotread cold off size rev itv naggs,
+  match verdict_of p1 p2 hot hotread cold, search sort p1 p2 hot hotread cold off size rev itv naggs with
   | VErr k, SErr k' => k = k'
-  | VOk p qs, SOk p' out =>
+  | VOk p qs xs, SOk p' out r =>
       p = p' /\ page_ok rev (flat_map snd qs) off size (map fst out) = true /\ sources_ok qs out = true
+      /\ rest_desc itv naggs qs xs r
   | _, _ => False
   end.
-Proof. exact search_ok. Qed.
+Proof. exact search_whole. Qed.
 Print Assumptions C16_complete_or_partial.
+
+(* proxyapi Search / ComplexSearch (after request validation): the API answer is a gRPC error, a
+   response carrying only the too-many-fractions error, or a response with documents — and then
+   partial_response = true with code PARTIAL_RESPONSE exactly when some shard of the deciding tier
+   had no answering replica; a response with code NO and partial_response = false is only given
+   when every shard answered AND no answering store reported a soft error. So an incomplete result
+   is never presented as complete. The content of the response is the search outcome above. *)
+Theorem C16_api_honest : forall sort, sort_ok sort ->
+  forall p1 p2 hot hotread cold off size rev itv naggs ffail,
+  match api_of (search_full sort p1 p2 hot hotread cold off size rev itv naggs ffail) with
+  | AResp flag code l x =>
+      exists qs xs, verdict_of p1 p2 hot hotread cold = VOk flag qs xs
+                    /\ code = (if flag then CPartial else CNo)
+                    /\ (flag = false -> x_errs x = 0 /\ errs_spec xs = 0)
+                    /\ page_ok rev (flat_map snd qs) off size (map fst l) = true
+                    /\ sources_ok qs l = true
+                    /\ x = merge_rest sort qs xs rev itv naggs
+  | AErr GInvalidArgument => verdict_of p1 p2 hot hotread cold = VErr EWantsOld
+  | AOnlyError => verdict_of p1 p2 hot hotread cold = VErr ETooManyFrac
+  | AErr GInternal => True
+  end.
+Proof. exact api_honest. Qed.
+Print Assumptions C16_api_honest.
+
+(* Store soft errors (SearchResponse.errors), as the code is: when every shard answered, one soft
+   error of any answering store turns the whole answer into gRPC Internal and the data is dropped;
+   in a partial response they are not looked at (see C16_soft_error_hidden_in_partial). What a caller
+   can rely on: code NO => no store reported a soft error (C16_api_honest). *)
+Theorem C16_api_soft_errors : forall p l x,
+  api_of (SOk p l x) = if p then AResp true CPartial l x
+                       else if Nat.eqb (x_errs x) 0 then AResp false CNo l x else AErr GInternal.
+Proof. exact api_soft_errors. Qed.
+Print Assumptions C16_api_soft_errors.
+
+(* ShuffleReplicas: for EVERY order in which the replicas of a shard are tried, the shard's outcome is
+   one of its replicas' own behaviours; and when no replica gives a special refusal, whether the
+   shard answers does not depend on the order (it answers iff some replica does). *)
+Theorem C16_any_replica_order : forall sh sh', Permutation sh sh' ->
+  match search_shard sh' with
+  | SAns s l x => In (s, BOk l x) sh
+  | SWantsOld => exists s, In (s, BWantsOld) sh
+  | STooManyFrac => exists s, In (s, BTooManyFrac) sh
+  | SFail => Forall (fun r => snd r = BErr) sh \/ exists s, In (s, BTooManyUniq) sh
+  end
+  /\ (forallb (fun r => plain (snd r)) sh = true ->
+      is_fail (search_shard sh') = negb (existsb (fun r => is_okb (snd r)) sh)
+      /\ is_wo (search_shard sh') = false /\ is_tmf (search_shard sh') = false).
+Proof. exact any_replica_order. Qed.
+Print Assumptions C16_any_replica_order.
+
+(* ... hence, without special refusals, every replica order of every shard gives the same
+   complete / partial / failed classification with the same number of answering shards
+   (C16_shard_first_answer_decides, C16_tier_complete_or_partial, C16_complete_or_partial and
+   C16_api_honest quantify over all shard lists, so they hold for each order as it is tried). *)
+Theorem C16_tier_any_replica_order : forall prio prio' shards shards',
+  Forall2 (@Permutation (src * beh)) shards shards' ->
+  forallb (fun sh => forallb (fun r => plain (snd r)) sh) shards = true ->
+  match search_stores prio shards, search_stores prio' shards' with
+  | TOk p qs xs, TOk p' qs' xs' => p = p' /\ length qs = length qs'
+  | TFail, TFail => True
+  | _, _ => False
+  end.
+Proof. exact tier_any_order. Qed.
+Print Assumptions C16_tier_any_replica_order.
 
 (* A hot tier that declares the range too old hands the query to the long-term stores, and the
    outcome is exactly the outcome of searching those alone (same classification, same page);
    without long-term stores it is the wants-old error. *)
-Theorem C16_cold_fallback : forall sort p1 p2 hot hotread cold off size rev,
+Theorem C16_cold_fallback : forall sort p1 p2 hot hotread cold off size rev itv naggs,
   search_stores p1 (match hotread with [] => hot | _ => hotread end) = TWantsOld ->
-  (cold <> [] -> search sort p1 p2 hot hotread cold off size rev = search sort p2 p2 cold [] [] off size rev)
-  /\ (cold = [] -> search sort p1 p2 hot hotread cold off size rev = SErr EWantsOld).
+  (cold <> [] -> search sort p1 p2 hot hotread cold off size rev itv naggs
+                 = search sort p2 p2 cold [] [] off size rev itv naggs)
+  /\ (cold = [] -> search sort p1 p2 hot hotread cold off size rev itv naggs = SErr EWantsOld).
 Proof.
-  intros sort p1 p2 hot hotread cold off size rev H. split.
-  - exact (cold_fallback sort p1 p2 hot hotread cold off size rev H).
-  - intros ->. exact (no_cold_tier sort p1 p2 hot hotread off size rev H).
+  intros sort p1 p2 hot hotread cold off size rev itv naggs H. split.
+  - exact (cold_fallback sort p1 p2 hot hotread cold off size rev itv naggs H).
+  - intros ->. exact (no_cold_tier sort p1 p2 hot hotread off size rev itv naggs H).
 Qed.
 Print Assumptions C16_cold_fallback.
 
@@ -84,6 +160,26 @@ Theorem C16_docs_complete : forall req streams,
 Proof. exact fetch_complete. Qed.
 Print Assumptions C16_docs_complete.
 
+(* Ingestor.Documents (fetch by ID: every ID asked from every store, uniqueIDIterator on top), for
+   ALL stream contents and every order of the sources inside an ID's group: the returned IDs are the
+   requested IDs with consecutive repetitions collapsed, and every document is empty or a payload
+   that one of the stores really sent under that ID. *)
+Theorem C16_documents_aligned : forall groups srcs streams,
+  Forall (fun g => snd g <> [] /\ incl (snd g) srcs) groups ->
+  udocs_sound (map fst groups) srcs streams (documents groups streams) = true.
+Proof. exact documents_sound. Qed.
+Print Assumptions C16_documents_aligned.
+
+(* ... and with well-behaved streams and no repeated ID: one document per requested ID, non-empty
+   exactly when one of the stores sent a non-empty document for it. *)
+Theorem C16_documents_complete : forall groups streams,
+  well_behaved (expand groups) streams = true ->
+  NoDup (map fst groups) -> Forall (fun g => snd g <> []) groups ->
+  map (fun d => negb (N.eqb (snd d) 0)) (documents groups streams)
+  = map (fun g => some_delivered (snd g) streams (fst g)) groups.
+Proof. exact documents_complete. Qed.
+Print Assumptions C16_documents_complete.
+
 (* The hot store refuses exactly when it is mature and the range starts before its oldest
    fraction (or it holds nothing). *)
 Theorem C16_hot_refusal : forall mature oldest from,
@@ -99,15 +195,39 @@ Proof. exact isort_ok. Qed.
 (* a partial response: shard 2 has no answering replica; duplicate ID (7,1) collapsed *)
 Example C16_partial_example :
   search isort true true
-    [[(0, BErr); (1, BOk [(9,0); (7,1); (3,0)]%N)]; [(2, BErr); (3, BTooManyUniq)]; [(4, BOk [(8,0); (7,1)]%N)]]
-    [] [] 1 3 false
-  = SOk true [((8,0)%N, 4); ((7,1)%N, 1); ((3,0)%N, 1)].
+    [[(0, BErr); (1, BOk [(9,0); (7,1); (3,0)]%N (mkX 5 [(6%N, 2%Z); (8%N, 1%Z)] [] 1))]; [(2, BErr); (3, BTooManyUniq)];
+     [(4, BOk [(8,0); (7,1)]%N (mkX 4 [(6%N, 1%Z)] [] 0))]]
+    [] [] 1 3 false 2%N 0
+  = SOk true [((8,0)%N, 4); ((7,1)%N, 1); ((3,0)%N, 1)] (mkX 8 [(6%N, 2%Z); (8%N, 1%Z)] [] 1).
 Proof. vm_compute. reflexivity. Qed.
 
 (* cold fallback taken *)
 Example C16_cold_example :
-  search isort true true [[(0, BWantsOld)]; [(1, BOk [(9,0)]%N)]] [] [[(2, BOk [(1,1); (1,0)]%N)]] 0 5 false
-  = SOk false [((1,1)%N, 2); ((1,0)%N, 2)].
+  search isort true true [[(0, BWantsOld)]; [(1, BOk [(9,0)]%N X0)]] [] [[(2, BOk [(1,1); (1,0)]%N X0)]] 0 5 false 0%N 0
+  = SOk false [((1,1)%N, 2); ((1,0)%N, 2)] X0.
+Proof. vm_compute. reflexivity. Qed.
+
+(* the soft error of store 1 is not visible in the partial API answer of C16_partial_example, while
+   the same soft error with every shard answering turns the answer into Internal *)
+Example C16_soft_error_hidden_in_partial :
+  (exists l x, api_of (search_full isort true true
+     [[(1, BOk [(9,0)]%N (mkX 1 [] [] 1))]; [(2, BErr)]; [(4, BOk [(8,0)]%N X0)]] [] [] 0 3 false 0%N 0 [])
+     = AResp true CPartial l x /\ x_errs x = 1)
+  /\ api_of (search_full isort true true
+     [[(1, BOk [(9,0)]%N (mkX 1 [] [] 1))]; [(4, BOk [(8,0)]%N X0)]] [] [] 0 3 false 0%N 0 []) = AErr GInternal.
+Proof. split; [eexists; eexists; split; vm_compute; reflexivity | vm_compute; reflexivity]. Qed.
+
+(* an inconsistent store (duplicate ID (7,1) in two shards, no count reported for its bucket) makes
+   the repair wrap: the bucket reads 2^64-1 — the model follows the uint64 arithmetic *)
+Example C16_hist_repair_wraps :
+  exists l x, search isort true true [[(0, BOk [(7,1)]%N X0)]; [(1, BOk [(7,1)]%N X0)]] [] [] 0 3 false 2%N 0 = SOk false l x
+              /\ hlookup (x_hist x) 6%N = 18446744073709551615%Z.
+Proof. eexists; eexists; split; vm_compute; reflexivity. Qed.
+
+(* Documents: ID (5,0) asked from stores 0 and 1, only store 1 has it; ID (4,0): nobody *)
+Example C16_documents_example :
+  documents [((5,0)%N, [0; 1]); ((4,0)%N, [1; 0])] [(0, [((5,0), 0); ((4,0), 0)]%N); (1, [((5,0), 7); ((4,0), 0)]%N)]
+  = [(((5,0)%N, 1), 7%N); (((4,0)%N, 1), 0%N)].
 Proof. vm_compute. reflexivity. Qed.
 
 (* alignment with an unrequested document at the head of each of two streams, a missing document
